@@ -398,6 +398,9 @@ func canonSet(l []trOut) string {
 }
 
 var trAddrs = []string{"h1", "h2:9100", "h3:80", "h4", "bad/addr", ""}
+
+// IPv6 literals: in brackets without a port (the port is completed), in brackets with one
+var trAddrs6 = []string{"[fd00::2]", "[2001:db8::5]:9100"}
 var trLabelPool = [][2]string{{"env", "prod"}, {"env", "dev"}, {"zone", "z1"}, {"app", "web"}, {"__meta_role", "pod"}, {"__meta_path", "/custom"},
 	{"__meta_9x", "nine"}, {"__scheme__", "https"}, {"__metrics_path__", "/own"}, {"instance", "inst1"}, {"__param_module", "disc"}, {"job", "other"}}
 
@@ -425,6 +428,9 @@ func translateGen(r *rand.Rand, idx int, thorough bool) interface{} {
 			a := trAddrs[r.Intn(4)]
 			if r.Intn(7) == 0 {
 				a = trAddrs[4+r.Intn(2)]
+			}
+			if (idx+g+t)%5 == 0 {
+				a = trAddrs6[(idx+t)%2]
 			}
 			if a != "" {
 				ls = append(ls, thLabel{"__address__", a})
